@@ -191,6 +191,7 @@ int main(void)
 	static char line[8192];
 
 	setvbuf(stdout, NULL, _IOFBF, 1 << 16);
+	alarm(60);	/* watchdog: a library call that does not return ends the run with SIGALRM */
 	iv_init();
 	while (fgets(line, sizeof(line), stdin) != NULL) {
 		char *save = NULL;
